@@ -214,6 +214,7 @@ pub struct Ledger {
     pub faults: Vec<MemFault>,
     pub ctxfaults: Vec<CtxFault>,
     /// context corruptions applied / of those, how many left pdu_len beyond the storage length
+    pub refused_saves_by_inner_memory: u64,
     pub ctx_fired: u64,
     pub ctx_beyond_storage: u64,
     pub calls: BTreeMap<MemOp, u64>,
@@ -458,10 +459,11 @@ impl GseDecapMemory for LedgerMemory {
         match &r {
             Ok(()) => g.note_in(a, l, Some(fid)),
             Err(_) => {
-                // the trait's error value does not carry the buffer: it is gone. Not a
-                // conservation claim (see DESIGN section 4); remember it so audits do not count it.
-                g.out.remove(&a);
-                g.destroyed_by_injection += 1;
+                // the bundled memory itself refused the save and dropped the buffer (its error value can not carry it).
+                // Through decap this never happens on the unchanged tree (the slot was emptied by the same call); when
+                // it does, a buffer that decap had taken is gone: it stays in `out` and the conservation check
+                // reports it (C08).
+                g.refused_saves_by_inner_memory += 1;
             }
         }
         if g.keep_trace {
